@@ -73,9 +73,7 @@ def handle : List String → String
       let msg ← parseBytes msg
       let sig ← parseBytes sig
       pure <| orReject do
-        let Pk ← parsePoint pk
-        let (R, s) ← parse sig
-        let (ok, _) ← verifySchnorr Hash.sha256 [] Pk msg R s
+        let (ok, _) ← verifyRaw Hash.sha256 [] pk msg sig
         if ok then pure "1" else none
   | ["schnorr_parse", sig] => optS do
       let sig ← parseBytes sig
